@@ -55,8 +55,17 @@ type Tab struct {
 	Lines []Line
 	Style int
 	Path  string
+	// C the real table.chain: the steps in order (`step <table>` / `optional_step <table>`), each a
+	// table of one of the other kinds (not F, not C)
+	Steps []ChainStep
 
 	memIDs []string
+}
+
+// ChainStep is one `step` / `optional_step` directive of a table.chain block.
+type ChainStep struct {
+	Optional bool
+	Tab      Tab
 }
 
 // Line is one entry line of a table file: `key: v1, v2` (`key` alone = one empty value).
@@ -227,6 +236,18 @@ func (t *Tab) ConfigNode(directive string) config.Node {
 		}
 		return config.Node{Name: directive, Args: []string{"file", t.Path}}
 	}
+	if t.Kind == "C" {
+		// the real table.chain, configured as the documentation says: a block of step directives
+		children := []config.Node{}
+		for i := range t.Steps {
+			name := "step"
+			if t.Steps[i].Optional {
+				name = "optional_step"
+			}
+			children = append(children, t.Steps[i].Tab.ConfigNode(name))
+		}
+		return config.Node{Name: directive, Args: []string{"chain"}, Children: children}
+	}
 	memMu.Lock()
 	memSeq++
 	id := fmt.Sprintf("t%d", memSeq)
@@ -240,7 +261,13 @@ func (t *Tab) ConfigNode(directive string) config.Node {
 func (cs *Case) ReleaseMem() {
 	memMu.Lock()
 	defer memMu.Unlock()
-	for _, t := range []*Tab{&cs.U2E, &cs.Prep} {
+	tabs := []*Tab{&cs.U2E, &cs.Prep}
+	for _, top := range []*Tab{&cs.U2E, &cs.Prep} {
+		for i := range top.Steps {
+			tabs = append(tabs, &top.Steps[i].Tab)
+		}
+	}
+	for _, t := range tabs {
 		for _, id := range t.memIDs {
 			delete(memTabs, id)
 		}
@@ -493,6 +520,20 @@ func (cs *Case) ConfigBlock() (block config.Node, text string, how string) {
 func (t *Tab) groups(tag string) string {
 	var b strings.Builder
 	fmt.Fprintf(&b, " | %s %s %s", strings.ToUpper(tag), t.Kind, B01(t.Err))
+	if t.Kind == "C" {
+		// ` | us <optional> <kind> <err>` opens a step, the `u` groups after it are its rows
+		for i := range t.Steps {
+			st := &t.Steps[i]
+			fmt.Fprintf(&b, " | %ss %s %s %s", tag, B01(st.Optional), st.Tab.Kind, B01(st.Tab.Err))
+			for _, k := range st.Tab.Keys {
+				fmt.Fprintf(&b, " | %s %s", tag, vh.HexRunes(k))
+				for _, v := range st.Tab.Rows[k] {
+					b.WriteString(" " + vh.HexRunes(v))
+				}
+			}
+		}
+		return b.String()
+	}
 	if t.Kind == "F" {
 		fmt.Fprintf(&b, " %d", t.Style)
 		for _, l := range t.Lines {
@@ -512,9 +553,91 @@ func (t *Tab) groups(tag string) string {
 	return b.String()
 }
 
+// chainRef: what a table.chain answers for the key, written from its documentation: "using the
+// value returned by a previous table as an input for the second table" — the answer is the
+// relational composition of the step tables: every value some step table gives for a value of the
+// step before, one application per step.  The documentation says what happens to a value that is
+// NOT in a step's table for one value only ("step: return not exists", "optional_step: it is passed to
+// the next step without changes"); with several values at once it can be read two ways:
+//
+//	reading 0 (all or nothing): one value without a mapping decides for the whole step — a `step`
+//	                            makes the whole lookup "not exists", an `optional_step` is left out
+//	reading 1 (value by value): the value without a mapping contributes nothing (`step`) or itself
+//	                            (`optional_step`), the other values are translated
+//
+// The monitor counts a sender as entitled when SOME reading entitles it and as refused-though-
+// entitled only when EVERY reading entitles it.  A step that fails makes the lookup fail.
+// Order and multiplicity of the values mean nothing for entitlement: the result is a set.
+func (t *Tab) chainRef(k string, reading int) (vals []string, failed bool) {
+	cur := []string{k}
+	for i := range t.Steps {
+		st := &t.Steps[i]
+		if len(cur) == 0 {
+			break
+		}
+		if st.Tab.Err {
+			return nil, true
+		}
+		var next []string
+		seen := map[string]bool{}
+		add := func(vs ...string) {
+			for _, v := range vs {
+				if !seen[v] {
+					seen[v] = true
+					next = append(next, v)
+				}
+			}
+		}
+		missing := false
+		for _, key := range cur {
+			vs, ok := st.Tab.refValues(key)
+			if st.Tab.Kind == "T" && len(vs) > 1 {
+				vs = vs[:1]
+			}
+			switch {
+			case ok && len(vs) > 0:
+				add(vs...)
+			case reading == 1 && st.Optional:
+				add(key)
+			case reading == 1:
+			default:
+				missing = true
+			}
+		}
+		if missing {
+			if st.Optional {
+				continue
+			}
+			return nil, false
+		}
+		cur = next
+	}
+	return cur, false
+}
+
+// tabValues: the values of a table of the case for a key, under the reading of chains the case is
+// currently judged by.  failed: the lookup is an error.
+func (cs *Case) tabValues(t *Tab, k string) (vals []string, found, failed bool) {
+	if t.Err {
+		return nil, false, true
+	}
+	if t.Kind == "C" {
+		vals, failed = t.chainRef(k, cs.reading)
+		return vals, len(vals) > 0, failed
+	}
+	vals, found = t.refValues(k)
+	return vals, found, false
+}
+
+// HasChain: is one of the tables of the case a table.chain?
+func (cs *Case) HasChain() bool { return cs.U2E.Kind == "C" || cs.Prep.Kind == "C" }
+
 // lookup as the reference sees the table: all values configured for the key.
 func (t *Tab) refValues(k string) (vals []string, found bool) {
 	switch t.Kind {
+	case "C":
+		vals, _ = t.chainRef(k, 0)
+		return vals, len(vals) > 0
 	case "I":
 		return []string{k}, true
 	case "L", "O":
@@ -563,6 +686,18 @@ type Case struct {
 	// wanted value is the default count) and the order of the ones written
 	Omit  uint
 	Order uint64
+	// SMTP sessions only (op-line group `| Z <authzid> <form>`): the client sends AUTH PLAIN with this
+	// authorization identity next to the login name User and the password of the account User; ZForm
+	// names the kind of identity (statistics).  Without it: the empty identity and the catch-all password.
+	HasZ    bool
+	Authzid string
+	ZForm   string
+
+	// which reading of the table.chain documentation the reference takes (see chainRef)
+	reading int
+	// set by refExact: every prepared form of the address it looked at was a plain address (both
+	// halves non-empty); the check answers a prepared value it cannot split with an error, not a decision
+	prepClean bool
 }
 
 func B01(b bool) string {
@@ -684,6 +819,13 @@ func SessionOpLine(cs *Case) string {
 	b.WriteString(cs.actGroups())
 	b.WriteString(cs.Prep.groups("p"))
 	b.WriteString(cs.U2E.groups("u"))
+	if cs.HasZ {
+		form := cs.ZForm
+		if form == "" {
+			form = "-"
+		}
+		fmt.Fprintf(&b, " | Z %s %s", vh.HexRunes(cs.Authzid), form)
+	}
 	b.WriteString(replayTail(cs))
 	return b.String()
 }
@@ -761,6 +903,20 @@ func ParseOp(op string) (*Case, string, error) {
 			if len(t) > 3 {
 				tab.Style, _ = strconv.Atoi(t[3])
 			}
+		case "ps", "us":
+			tab := &cs.Prep
+			if t[0] == "us" {
+				tab = &cs.U2E
+			}
+			if len(t) != 4 || tab.Kind != "C" {
+				return nil, "", fmt.Errorf("bad step group")
+			}
+			tab.Steps = append(tab.Steps, ChainStep{Optional: t[1] == "1", Tab: Tab{Kind: t[2], Err: t[3] == "1"}})
+		case "Z":
+			if len(t) != 3 {
+				return nil, "", fmt.Errorf("bad Z group")
+			}
+			cs.HasZ, cs.Authzid, cs.ZForm = true, vh.UnhexRunes(t[1]), t[2]
 		case "p", "u":
 			var vs []string
 			for _, x := range t[2:] {
@@ -769,6 +925,12 @@ func ParseOp(op string) (*Case, string, error) {
 			tab := &cs.Prep
 			if t[0] == "u" {
 				tab = &cs.U2E
+			}
+			if tab.Kind == "C" {
+				if len(tab.Steps) == 0 {
+					return nil, "", fmt.Errorf("row before the first step")
+				}
+				tab = &tab.Steps[len(tab.Steps)-1].Tab
 			}
 			if tab.Kind == "F" {
 				tab.Lines = append(tab.Lines, Line{vh.UnhexRunes(t[1]), vs})
@@ -984,7 +1146,6 @@ func refExact(cs *Case, whole string) (entitled bool, how string, known bool) {
 	if !ok {
 		return false, "", true
 	}
-	entries, _ := cs.U2E.refValues(nu)
 	na, ok, known := RefNorm(cs.FromNorm, whole)
 	if !known {
 		return false, "", false
@@ -992,10 +1153,28 @@ func refExact(cs *Case, whole string) (entitled bool, how string, known bool) {
 	if !ok {
 		return false, "", true
 	}
+	// the check asks prepare_email first, then user_to_email: a failing lookup refuses
 	prepared, alias := []string{na}, ""
 	if cs.Prep.Kind != "I" {
-		if vals, ok := cs.Prep.refValues(na); ok {
+		vals, ok, failed := cs.tabValues(&cs.Prep, na)
+		if failed {
+			return false, "", true
+		}
+		if ok {
 			prepared, alias = vals, "alias:"
+		}
+	}
+	entries, _, failed := cs.tabValues(&cs.U2E, nu)
+	if failed {
+		return false, "", true
+	}
+	if cs.U2E.Kind == "C" {
+		alias += "chain:"
+	}
+	cs.prepClean = true
+	for _, p := range prepared {
+		if l, d, ok := refSplit(p); !ok || l == "" || d == "" {
+			cs.prepClean = false
 		}
 	}
 	for _, p := range prepared {
@@ -1099,9 +1278,31 @@ func covered(entries []string, whole, domain string, hasDomain bool) string {
 func RefEntitled(cs *Case, whole, domain string, hasDomain bool) (bool, string) {
 	// the exact reading: literal comparison of the prepared form (reference normalisation)
 	if ok, how, known := refExact(cs, whole); known {
+		if !ok && cs.HasChain() {
+			// the other reading of the table.chain documentation
+			cs.reading = 1
+			ok, how, _ = refExact(cs, whole)
+			cs.reading = 0
+		}
 		return ok, how
 	}
 	return refCoarse(cs, whole, domain, hasDomain)
+}
+
+// RefSurelyEntitled: the exact reference decides, and entitles the user to the address under every
+// reading of the configuration's documentation.  A refusal of such a sender is over-refusal.
+func RefSurelyEntitled(cs *Case, whole string) bool {
+	ok, _, known := refExact(cs, whole)
+	if !known || !ok || !cs.prepClean {
+		return false
+	}
+	if cs.HasChain() {
+		cs.reading = 1
+		ok, _, _ = refExact(cs, whole)
+		cs.reading = 0
+		ok = ok && cs.prepClean
+	}
+	return ok
 }
 
 // refCoarse: the same with the coarse spelling equivalence, for the strings whose normal form the
@@ -1200,6 +1401,18 @@ func Monitor(out *vh.Out, cs *Case, r *Run, op string) {
 			out.Violation("C15/envelope-sender-not-entitled", op, fmt.Sprintf("user %q accepted MAIL FROM %q", cs.User, cs.MailFrom))
 		}
 		out.Stat("monitor.envelope-pass.by-" + how)
+	}
+	// the converse, where the reference is exact: a sender the configured mapping gives the user
+	// (under every reading of its documentation) is not refused as "not yours"
+	if cs.User != "" && r.Sender.Reason == "noMatch" && RefSurelyEntitled(cs, cs.MailFrom) {
+		out.Violation("C15/entitled-sender-refused", op, fmt.Sprintf("user %q refused MAIL FROM %q: %s", cs.User, cs.MailFrom, r.Sender.String()))
+	}
+	if cs.User != "" && cs.CheckHeader && cs.GTKnown && r.Body.Reason == "noMatch" && len(cs.GTFrom) == 1 && len(cs.GTFrom[0]) == 1 &&
+		len(r.FromVals) == 1 {
+		a := cs.GTFrom[0][0]
+		if l, err := mail.ParseAddressList(r.FromVals[0]); err == nil && len(l) == 1 && l[0].Address == a.String() && RefSurelyEntitled(cs, a.String()) {
+			out.Violation("C15/entitled-author-refused", op, fmt.Sprintf("user %q refused From %q: %s", cs.User, a.String(), r.Body.String()))
+		}
 	}
 	// header author
 	if cs.CheckHeader && bodyThrough && cs.User != "" {
@@ -1316,6 +1529,43 @@ func Distribution(out *vh.Out, cs *Case, r *Run) {
 		}
 		o, err := authz.NormalizeFuncs[q.name](q.in)
 		out.Stat("oracle.norm.agrees-with-configured-function." + B01(rok == (err == nil) && (!rok || ro == o)))
+	}
+	for _, q := range []struct {
+		name string
+		t    *Tab
+		key  string
+	}{{"u2e", &cs.U2E, normOrSelf(cs.AuthNorm, cs.User)}, {"prepare", &cs.Prep, normOrSelf(cs.FromNorm, cs.MailFrom)}} {
+		if q.t.Kind != "C" {
+			continue
+		}
+		out.Stat(fmt.Sprintf("chain.%s.steps.%d", q.name, len(q.t.Steps)))
+		maxVals, selfKey := 0, false
+		for i := range q.t.Steps {
+			st := &q.t.Steps[i]
+			out.Stat(fmt.Sprintf("chain.%s.step-kind.%s.optional-%s", q.name, st.Tab.Kind, B01(st.Optional)))
+			for _, k := range st.Tab.Keys {
+				if n := len(st.Tab.Rows[k]); n > maxVals {
+					maxVals = n
+				}
+				for _, v := range st.Tab.Rows[k] {
+					if _, isKey := st.Tab.Rows[v]; isKey && v != k && i > 0 {
+						selfKey = true
+					}
+				}
+			}
+		}
+		out.Stat(fmt.Sprintf("chain.%s.max-values-per-key.%d", q.name, min(maxVals, 4)))
+		out.Stat("chain." + q.name + ".value-is-key-of-the-same-step." + B01(selfKey))
+		v0, f0 := q.t.chainRef(q.key, 0)
+		v1, _ := q.t.chainRef(q.key, 1)
+		out.Stat(fmt.Sprintf("chain.%s.answer-values.%d", q.name, min(len(v0), 5)))
+		out.Stat("chain." + q.name + ".lookup-fails." + B01(f0))
+		sort.Strings(v0)
+		sort.Strings(v1)
+		out.Stat("chain." + q.name + ".readings-agree." + B01(strings.Join(v0, "\x00") == strings.Join(v1, "\x00")))
+	}
+	if cs.Conn && cs.User != "" {
+		out.Stat("oracle.mailfrom-surely-entitled." + B01(RefSurelyEntitled(cs, cs.MailFrom)) + ".sender-" + r.Sender.Reason)
 	}
 	out.Stat("cfg.checkheader." + B01(cs.CheckHeader))
 	out.Stat(fmt.Sprintf("hdr.fromfields.%d", len(r.FromVals)))
@@ -1906,7 +2156,225 @@ func GenCase(r *vh.Rng, smtpSafe bool) *Case {
 	if r.Chance(70) {
 		cs.Order = r.Next()>>1 | 1
 	}
+
+	// --- tables that are a table.chain (drawn last: the cases without one stay what they were)
+	if (cs.Prep.Kind == "S" || cs.Prep.Kind == "M" || cs.Prep.Kind == "T") && !cs.Prep.Err && r.Chance(30) {
+		chainPrep(r, cs, w)
+	}
+	if (cs.U2E.Kind == "S" || cs.U2E.Kind == "M" || cs.U2E.Kind == "T") && !cs.U2E.Err && r.Chance(30) {
+		chainU2E(r, cs, w, smtpSafe)
+	}
 	return cs
+}
+
+// chainPrep puts the prepare_email table of the case at the head of a table.chain and, mostly,
+// a second table behind it that maps some of its targets on (to addresses that are again keys of that
+// table, to addresses of the user, to others).
+func chainPrep(r *vh.Rng, cs *Case, w *world) {
+	first := cs.Prep
+	var targets []string
+	for _, k := range first.Keys {
+		targets = append(targets, first.Rows[k]...)
+	}
+	steps := []ChainStep{{Optional: r.Chance(50), Tab: first}}
+	if r.Chance(70) && len(targets) > 0 {
+		second := Tab{Kind: r.Pick("S", "S", "M", "T")}
+		pool := append([]string{}, targets...)
+		for _, a := range w.entitled {
+			pool = append(pool, normOrSelf(cs.FromNorm, a.String()))
+		}
+		for _, a := range w.others {
+			pool = append(pool, a.String())
+		}
+		for _, k := range targets {
+			if k == "" || !r.Chance(75) {
+				continue
+			}
+			var vs []string
+			for j, m := 0, 1+r.Intn(3); j < m; j++ {
+				vs = append(vs, pool[r.Intn(len(pool))])
+			}
+			if _, dup := second.Rows[k]; !dup {
+				second.Add(k, vs...)
+			}
+		}
+		if len(second.Keys) > 0 {
+			steps = append(steps, ChainStep{Optional: r.Chance(60), Tab: second})
+		}
+	}
+	cs.Prep = Tab{Kind: "C", Steps: steps}
+}
+
+// chainU2E replaces the user_to_email table of the case by a table.chain of 1-3 steps: the table
+// the case had (account -> addresses / groups) and behind it delegation tables over one small pool of
+// names, so that the values a step returns are often keys of the same step and of the next one: a
+// step returns 0 (no row), 1, 2 or 3 values for a key.  MAIL FROM and the author fields are drawn
+// anew: addresses the composition of the steps gives the user, names that stand in some step's
+// table but are not reached by ONE application per step, others.
+func chainU2E(r *vh.Rng, cs *Case, w *world, smtpSafe bool) {
+	first := cs.U2E
+	userKey := normOrSelf(cs.AuthNorm, cs.User)
+	// the pool of names: what the first table hands out, addresses of others, fresh ones
+	var pool []string
+	inPool := map[string]bool{}
+	add := func(v string) {
+		if v != "" && !inPool[v] {
+			inPool[v] = true
+			pool = append(pool, v)
+		}
+	}
+	for _, k := range first.Keys {
+		for _, v := range first.Rows[k] {
+			add(v)
+		}
+	}
+	for _, a := range w.others {
+		add(normOrSelf(cs.FromNorm, a.String()))
+	}
+	for len(pool) < 5+r.Intn(3) {
+		add(normOrSelf(cs.FromNorm, randAddr(r).String()))
+	}
+	if r.Chance(15) {
+		add(Domains[r.Intn(len(Domains))])
+	}
+	// mostly the user has a row of two or three names (the delegation steps then see several keys at once)
+	if cs.User != "" && first.Kind != "T" && r.Chance(70) {
+		row := append([]string{}, first.Rows[userKey]...)
+		for want := 2 + r.Intn(2); len(row) < want; {
+			row = append(row, pool[r.Intn(len(pool))])
+		}
+		first.Add(userKey, row...)
+	}
+	steps := []ChainStep{{Optional: r.Chance(25), Tab: first}}
+	for i, n := 0, []int{0, 1, 1, 1, 2, 2}[r.Intn(6)]; i < n; i++ {
+		st := ChainStep{Optional: r.Chance(35), Tab: Tab{Kind: r.Pick("S", "S", "S", "S", "S", "M", "M", "T", "T", "I", "O")}}
+		if st.Tab.Kind == "M" || st.Tab.Kind == "T" {
+			st.Tab.Err = r.Chance(3)
+		}
+		if st.Tab.Kind == "S" || st.Tab.Kind == "M" || st.Tab.Kind == "T" {
+			density := []int{100, 100, 100, 85, 60}[r.Intn(5)]
+			names := append([]string{}, pool...)
+			for _, k := range names {
+				if !r.Chance(density) {
+					continue // no row: the step returns nothing for this key
+				}
+				var vs []string
+				m := 1 + r.Intn(3)
+				if r.Chance(50) {
+					vs = append(vs, k) // a delegation table usually keeps the name itself
+				}
+				for len(vs) < m {
+					if r.Chance(12) {
+						fresh := normOrSelf(cs.FromNorm, randAddr(r).String())
+						add(fresh)
+						vs = append(vs, fresh)
+						continue
+					}
+					vs = append(vs, pool[r.Intn(len(pool))])
+				}
+				if r.Chance(4) {
+					vs = append(vs, r.Pick("", "*", "alice", "@example.org"))
+				}
+				st.Tab.Add(k, vs...)
+			}
+		}
+		steps = append(steps, st)
+	}
+	cs.U2E = Tab{Kind: "C", Steps: steps}
+
+	// what the composition gives the user (either reading), and the names it does not give
+	given := map[string]bool{}
+	var finals []string
+	for reading := 0; reading < 2; reading++ {
+		vals, _ := cs.U2E.chainRef(userKey, reading)
+		for _, v := range vals {
+			if !given[v] {
+				given[v] = true
+				finals = append(finals, v)
+			}
+		}
+	}
+	var traps []string
+	for _, v := range pool {
+		if !given[v] {
+			traps = append(traps, v)
+		}
+	}
+	// the names reached when a step's table is applied MORE than once (a delegation table read
+	// transitively) and the composition does not give: what an implementation that feeds a step its
+	// own output would hand out
+	var near []string
+	{
+		cur := []string{userKey}
+		for i := range steps {
+			seen := map[string]bool{}
+			var out []string
+			queue := append([]string{}, cur...)
+			for len(queue) > 0 && len(out) < 40 {
+				k := queue[0]
+				queue = queue[1:]
+				vs, _ := steps[i].Tab.refValues(k)
+				for _, v := range vs {
+					if !seen[v] {
+						seen[v] = true
+						out = append(out, v)
+						queue = append(queue, v)
+					}
+				}
+			}
+			if len(out) == 0 {
+				if steps[i].Optional {
+					continue
+				}
+				cur = nil
+				break
+			}
+			cur = out
+		}
+		for _, v := range cur {
+			if !given[v] && v != "" {
+				near = append(near, v)
+			}
+		}
+	}
+	toAddr := func(v string) Addr {
+		if l, d, ok := SplitLast(v); ok && l != "" && d != "" {
+			return Addr{l, d}
+		}
+		if strings.Contains(v, ".") && !strings.Contains(v, "@") {
+			return Addr{Locals[r.Intn(len(Locals))], v}
+		}
+		return randAddr(r)
+	}
+	pick := func() Addr {
+		switch k := r.Intn(20); {
+		case k < 7 && len(finals) > 0:
+			a := toAddr(finals[r.Intn(len(finals))])
+			if r.Chance(25) {
+				return addrVariant(r, a)
+			}
+			return a
+		case k < 13 && len(near) > 0:
+			return toAddr(near[r.Intn(len(near))])
+		case k < 16 && len(traps) > 0:
+			a := toAddr(traps[r.Intn(len(traps))])
+			if r.Chance(15) {
+				return addrVariant(r, a)
+			}
+			return a
+		case k < 18:
+			return w.others[r.Intn(len(w.others))]
+		default:
+			return randAddr(r)
+		}
+	}
+	a := pick()
+	cs.MailFrom = a.String()
+	if smtpSafe && !isDotAtom(a.Local) {
+		cs.MailFrom = quoteLocal(a.Local, true) + "@" + a.Domain
+	}
+	cs.GTFrom, cs.GTSender, cs.GTKnown = nil, nil, true
+	genHeader(r, cs, pick, func() string { return r.Pick("Alice", "CEO office", pick().String()) })
 }
 
 // ---- tables kept in a file
@@ -2588,6 +3056,50 @@ func Fixed() []*Case {
 		cs.AuthNorm = nn
 		grid = append(grid, cs)
 	}
+	// table.chain as user_to_email: account -> groups, then ONE level of delegation (the delegation
+	// table's values are again keys of it: a.smith@ delegates to ceo-office@, which alice is NOT given)
+	deleg := func(optional bool, rows ...[]string) Tab {
+		var accounts, d Tab
+		accounts.Kind, d.Kind = "S", "S"
+		accounts.Add("alice", "alice@example.org", "info@example.org")
+		accounts.Add("bob", "bob@example.com")
+		for _, row := range rows {
+			d.Add(row[0], row[1:]...)
+		}
+		return Tab{Kind: "C", Steps: []ChainStep{{Tab: accounts}, {Optional: optional, Tab: d}}}
+	}
+	full := [][]string{{"alice@example.org", "alice@example.org", "a.smith@example.org"}, {"info@example.org", "info@example.org", "sales@example.org"},
+		{"a.smith@example.org", "a.smith@example.org", "ceo-office@example.org"}, {"bob@example.com", "bob@example.com"}}
+	partial := [][]string{{"alice@example.org", "a.smith@example.org", "postmaster@example.org"}, {"a.smith@example.org", "ceo-office@example.org"}}
+	for _, who := range []string{"alice", "a.smith", "info", "sales", "ceo-office", "postmaster"} {
+		a := Addr{who, "example.org"}
+		for k, t := range []Tab{deleg(false, full...), deleg(true, full...), deleg(false, partial...), deleg(true, partial...)} {
+			cs := mk("alice", a.String(), t, "From: <"+a.String()+">\r\n"+rest, [][]Addr{{a}}, nil)
+			if k%2 == 1 {
+				// the same chain in front of the check as prepare_email is not the point here; vary the settings instead
+				cs.FromNorm, cs.AuthNorm = "precis_casefold_email", "precis_casefold"
+			}
+			grid = append(grid, cs)
+		}
+	}
+	// table.chain as prepare_email: alias -> mailboxes -> (optional) second rewriting
+	for _, from := range []string{"sales@example.org", "info@example.org", "alice@example.org", "team@example.org"} {
+		var al, second, u Tab
+		al.Kind, second.Kind, u.Kind = "S", "S", "S"
+		al.Add("sales@example.org", "alice@example.org", "bob@example.com")
+		al.Add("info@example.org", "alice@example.org", "alice@corp.example.net")
+		al.Add("team@example.org", "alice@example.org", "alice@corp.example.net", "info@example.org")
+		second.Add("alice@example.org", "alice@corp.example.net", "alice@example.org")
+		second.Add("alice@corp.example.net", "bob@example.com")
+		second.Add("info@example.org", "alice@corp.example.net")
+		u.Add("alice", "alice@example.org", "alice@corp.example.net")
+		for _, opt := range []bool{false, true} {
+			l, d, _ := SplitLast(from)
+			cs := mk("alice", from, u, "From: <"+from+">\r\n"+rest, [][]Addr{{{l, d}}}, nil)
+			cs.Prep = Tab{Kind: "C", Steps: []ChainStep{{Optional: opt, Tab: al}, {Optional: true, Tab: second}}}
+			grid = append(grid, cs)
+		}
+	}
 	return append(grid, []*Case{
 		odd("backup", "postmaster", "noop", "I", ""),
 		odd("backup", "postmaster", "auto", "I", ""),
@@ -3014,4 +3526,120 @@ func DumpTable(t module.MultiTable, keys []string) string {
 		parts = append(parts, vh.HexRunes(k)+"="+strings.Join(hv, ","))
 	}
 	return strings.Join(parts, ";")
+}
+
+// ---------------------------------------------------------------- SASL PLAIN identities (SMTP sessions)
+
+// The `authzid` family: accounts whose names differ only in what the automatic normalisation folds
+// (letter case, Unicode normalisation form, width, A-label / U-label), each with its own password
+// and its own entitlements; the client logs in as one of them (User) with THAT account's password
+// and sends an authorization identity of every kind.  The endpoint's auth_map_normalize and the
+// check's auth_normalize are the same setting (AuthNorm).  Whatever the endpoint makes of the
+// identity, the entitlements that decide must be those of the account whose password was verified.
+
+// Password of an account (as the credential store names it).
+func Password(account string) string { return "pw:" + account }
+
+type zPair struct{ login, variant, form string }
+
+var zPairs = []zPair{
+	{"admin", "Admin", "case"},
+	{"Admin", "admin", "case"},
+	{"alice", "ALICE", "case"},
+	{"rené", "rené", "nfd"},
+	{"admin", "\uff41dmin", "width"},
+	{"bob@example.org", "bob@EXAMPLE.ORG", "case-domain"},
+	{"bob@example.org", "Bob@example.org", "case"},
+	{"carol@münchen.de", "carol@xn--mnchen-3ya.de", "a-label"},
+	{"carol@xn--mnchen-3ya.de", "carol@münchen.de", "u-label"},
+}
+
+var zForms = []string{"empty", "identical", "variant", "other-account", "garbage"}
+
+const (
+	zOwnAddr     = "own.mailbox@example.org"
+	zVariantAddr = "boss@example.org"
+	zOtherAddr   = "other@example.com"
+)
+
+func zCase(setting string, p zPair, form, garbage, target string) *Case {
+	cs := &Case{CheckHeader: true, UA: "r", NA: "r", EA: "r", AuthNorm: setting, FromNorm: "auto", Conn: true,
+		User: p.login, HasZ: true, GTKnown: true}
+	cs.Prep.Kind = "I"
+	cs.U2E.Kind = "S"
+	cs.U2E.Add(normOrSelf(setting, p.login), zOwnAddr)
+	if k := normOrSelf(setting, p.variant); k != normOrSelf(setting, p.login) {
+		cs.U2E.Add(k, zVariantAddr)
+	}
+	if _, dup := cs.U2E.Rows["mallory"]; !dup {
+		cs.U2E.Add("mallory", zOtherAddr)
+	}
+	cs.ZForm = form
+	switch form {
+	case "empty":
+		cs.Authzid = ""
+	case "identical":
+		cs.Authzid = p.login
+	case "variant":
+		cs.Authzid, cs.ZForm = p.variant, p.form
+	case "other-account":
+		cs.Authzid = "mallory"
+	default:
+		cs.Authzid = garbage
+	}
+	cs.MailFrom = target
+	l, d, _ := SplitLast(target)
+	cs.Raw = []byte("From: <" + target + ">\r\nTo: someone@example.net\r\nSubject: hello\r\n")
+	cs.GTFrom = [][]Addr{{{l, d}}}
+	return cs
+}
+
+// FixedAuthz: the same for every seed — the case-preserving and the folding settings x every pair of
+// names x the variant as authorization identity, asking for the variant account's address; the other
+// identity forms on two pairs.
+func FixedAuthz() []*Case {
+	var out []*Case
+	for _, setting := range []string{"noop", "precis", "precis_email", "auto"} {
+		for _, p := range zPairs {
+			out = append(out, zCase(setting, p, "variant", "", zVariantAddr))
+		}
+		for _, p := range zPairs[:2] {
+			for _, form := range []string{"empty", "identical", "other-account", "garbage"} {
+				target := zOwnAddr
+				if form == "other-account" {
+					target = zOtherAddr
+				}
+				out = append(out, zCase(setting, p, form, "*", target))
+			}
+		}
+	}
+	return out
+}
+
+func GenAuthzCase(r *vh.Rng) *Case {
+	setting := NormNames[r.Intn(len(NormNames))]
+	p := zPairs[r.Intn(len(zPairs))]
+	form := zForms[r.Intn(len(zForms))]
+	if r.Chance(40) {
+		form = "variant"
+	}
+	target := r.Pick(zVariantAddr, zVariantAddr, zOwnAddr, zOtherAddr)
+	cs := zCase(setting, p, form, r.Pick("*", "x y", "@", "admin@", "nobody", "ADMIN ", "Admin​"), target)
+	if r.Chance(30) {
+		cs.FromNorm = NormNames[r.Intn(len(NormNames))]
+	}
+	if r.Chance(50) {
+		cs.Omit = OmAll
+	}
+	return cs
+}
+
+// NormBoth: the normal form of an account name under a setting, by the independent reference where it
+// decides, by the configured function otherwise.
+func NormBoth(setting, s string) (string, bool) {
+	if o, ok, known := RefNorm(setting, s); known {
+		return o, ok
+	}
+	o, err := authz.NormalizeFuncs[setting](s)
+	return o, err == nil
 }
